@@ -100,4 +100,37 @@ theorem arc_makeFeasible_sound (I : ArcInst) (high : ℚ) (J : ArcInst) (sol : L
     rw [sel_congr J _ _ hagree]
     exact hloc
 
+/-! ## non-vacuity -/
+
+/-- a reachable graph in which customer `b` has no entering arc (depot `d` added last and moved to the front), grid
+    through `add_time_points`: the greedy route serves `a`, the heuristic adds the dummy entry arc `d → b` -/
+def nv_aOps : List GOp :=
+  [.addNode "a" 1 2 (some 5), .addNode "b" 2 6 (some 9), .addNode "d" 0 0 none,
+   .addArc "d" "a" 2 1, .addArc "a" "d" 2 1, .addArc "b" "d" 2 2, .setDepot "d"]
+
+def nv_aI : ArcInst := ({ g := grun .base {} nv_aOps, T := [] } : ArcInst).addTimePoints [6, 0, 8, 2]
+
+/-- the standing hypothesis `C05.WF` -/
+theorem nv_aI_wf : C05.WF nv_aI := ⟨by decide +kernel, by decide +kernel, C15.grun_inv .base nv_aOps⟩
+
+/-- `J, sol` of `I.makeFeasible high = .ok (J, sol)` by evaluation -/
+def nv_aJ : ArcInst := (nv_val (nv_aI.makeFeasible 100) (nv_aI, [])).1
+def nv_aSol : List ℚ := (nv_val (nv_aI.makeFeasible 100) (nv_aI, [])).2
+theorem nv_aI_mf : nv_aI.makeFeasible 100 = .ok (nv_aJ, nv_aSol) := nv_val_eq _ _ (by decide +kernel)
+
+example : nv_aI.g.arcs.map (·.1) = [(0, 1), (1, 0), (2, 0)] ∧ nv_aJ.g.arcs.map (·.1) = [(0, 1), (1, 0), (2, 0), (0, 2)] ∧
+    nv_aJ.vars = [(0, 0, 1, 2), (1, 2, 0, 6), (1, 2, 0, 8), (2, 6, 0, 8), (0, 0, 2, 6), (0, 0, 2, 8), (0, 2, 2, 6),
+      (0, 2, 2, 8), (0, 6, 2, 6), (0, 6, 2, 8), (0, 8, 2, 8)] ∧
+    nv_aSol = [1, 1, 0, 1, 1, 0, 0, 0, 0, 0, 0] := by decide +kernel
+
+/-- all hypotheses of `arc_makeFeasible_frame` / `arc_makeFeasible_sound` hold; conclusions on the instance -/
+example : nv_aSol.length = nv_aJ.data.n ∧ (∀ v ∈ nv_aSol, v = 0 ∨ v = 1) ∧ nv_aJ.data.feasibleB (vecOf nv_aSol) = true :=
+  arc_makeFeasible_sound nv_aI 100 nv_aJ nv_aSol nv_aI_wf nv_aI_mf
+
+example : nv_aJ.T = nv_aI.T ∧ nv_aJ.g.nodes = nv_aI.g.nodes ∧ C05.WF nv_aJ ∧
+    (∀ i j, nv_aI.g.hasArc i j = true → nv_aJ.g.hasArc i j = true) :=
+  arc_makeFeasible_frame nv_aI 100 nv_aJ nv_aSol nv_aI_wf nv_aI_mf
+
+example : nv_aJ.data.objective (vecOf nv_aSol) = 104 := by decide +kernel
+
 end Vrp.C09
